@@ -30,7 +30,7 @@ package compression
 //@   ensures @identity result_1 == nil && compression <= 1 ==> cmpFormat(result_0) == 1
 
 //@ func GetDecompressor
-//@   modifies nothing
+//@   modifies brotliSrc, zstdSrc, snappySrc
 //@   ensures @known (result_1 == nil) == (0 <= compression && compression <= 6)
 //@   ensures @format result_1 == nil ==> result_0 != nil && (decFormat(result_0) == wantFormat(compression) || decFormat(result_0) == 0)
 //@   ensures @identity result_1 == nil && compression <= 1 ==> decFormat(result_0) == 1
@@ -48,16 +48,16 @@ package compression
 //@   modifies nothing
 //@   ensures result != nil && cmpFormat(result) == 6
 //@ func NewBrotliDecompressor
-//@   modifies nothing
+//@   modifies brotliSrc
 //@   ensures result != nil && decFormat(result) == 3
 //@ func NewZstdDecompressor
-//@   modifies nothing
+//@   modifies zstdSrc
 //@   ensures result != nil && (decFormat(result) == 4 || decFormat(result) == 0)
 //@ func NewDeflateDecompressor
 //@   modifies nothing
 //@   ensures result != nil && decFormat(result) == 5
 //@ func NewSnappyDecompressor
-//@   modifies nothing
+//@   modifies snappySrc
 //@   ensures result != nil && decFormat(result) == 6
 
 // ---- thin wrappers: they delegate to the library instance they hold, and the states the
@@ -72,8 +72,9 @@ package compression
 //@   ensures c.decoder == nil ==> result_0 == 0 && result_1 == io.EOF
 //@ func (*zstdDecompressor).Reset
 //@   requires c != nil
-//@   modifies zstdDecompressor.decoder
+//@   modifies zstdDecompressor.decoder, zstdSrc
 //@   ensures @usable result == nil ==> c.decoder != nil
+//@   ensures @input result == nil ==> zstdSrc[c.decoder] == rdr
 //@   ensures @kept old(c.decoder) != nil ==> c.decoder == old(c.decoder)
 //@ func (*zstdDecompressor).Close
 //@   requires c != nil
@@ -90,8 +91,9 @@ package compression
 //@   ensures c.reader == nil ==> result_0 == 0 && result_1 == io.EOF
 //@ func (*deflateDecompressor).Reset
 //@   requires c != nil
-//@   modifies deflateDecompressor.reader
+//@   modifies deflateDecompressor.reader, zlibSrc
 //@   ensures @installed c.reader != nil
+//@   ensures @input result == nil ==> zlibSrc[c.reader] == rdr
 //@   ensures @sentinel result != nil ==> typeis(c.reader, *errorDecompressor) && unbox(c.reader, *errorDecompressor).err == result
 //@ func (*deflateDecompressor).Close
 //@   requires c != nil
@@ -104,8 +106,8 @@ package compression
 //@   ensures 0 <= result_0 && result_0 <= len(bytes)
 //@ func (*snappyDecompressor).Reset
 //@   requires c != nil && c.reader != nil
-//@   modifies nothing
-//@   ensures result == nil
+//@   modifies snappySrc
+//@   ensures result == nil && snappySrc[c.reader] == rdr
 //@ func (*snappyDecompressor).Close
 //@   modifies nothing
 //@   ensures result == nil
@@ -115,7 +117,8 @@ package compression
 //@   ensures 0 <= result_0 && result_0 <= len(bytes)
 //@ func (*brotliDecompressor).Reset
 //@   requires c != nil && c.reader != nil
-//@   modifies nothing
+//@   modifies brotliSrc
+//@   ensures brotliSrc[c.reader] == rdr
 //@ func (*brotliDecompressor).Close
 //@   modifies nothing
 //@   ensures result == nil
